@@ -80,6 +80,8 @@ func stateEqual(a map[string]string, ch *Channel) bool {
 	return true
 }
 
+var taskLeadSeq int
+
 // authRun sends the request on its route and fills Result/Message/Changed.
 func authRun(w *World, chName string, ac *authCase, tag string) (acceptedAddr string) {
 	ch := w.Peer.Channels[chName]
@@ -102,13 +104,31 @@ func authRun(w *World, chName string, ac *authCase, tag string) (acceptedAddr st
 			msg = res.Message
 		}
 	case 1:
-		out := w.ExecTasks(chName, w.Robot.Creator, []*fpb.Task{{Id: w.Peer.NextTxID(), Method: fn, Args: ac.Args}})
-		if out.Resp == nil || len(out.Resp.GetTxResponses()) != 1 {
+		tasks := []*fpb.Task{{Id: w.Peer.NextTxID(), Method: fn, Args: ac.Args}}
+		lead := ""
+		taskLeadSeq++
+		if taskLeadSeq%2 == 0 {
+			// every other time the request is the SECOND task of the list, behind a genuine request of the
+			// issuer for this chaincode and channel: what the first task established must not carry over
+			lead = "lead" + strconv.Itoa(taskLeadSeq)
+			args := BuildRequest("whoAmI", "", chName, chName, []string{lead}, strconv.FormatUint(1800000000000+uint64(taskLeadSeq), 10), w.Issuer.Members, nil, nil)
+			tasks = append([]*fpb.Task{{Id: w.Peer.NextTxID(), Method: "whoAmI", Args: args}}, tasks...)
+		}
+		out := w.ExecTasks(chName, w.Robot.Creator, tasks)
+		if out.Resp == nil || len(out.Resp.GetTxResponses()) != len(tasks) {
 			msg = "TASKS FAILED: " + out.Res.Message
-		} else if e := out.Resp.GetTxResponses()[0].GetError().GetError(); e != "" {
+		} else if e := out.Resp.GetTxResponses()[len(tasks)-1].GetError().GetError(); e != "" {
 			msg = e
 		} else {
 			acceptedAddr = string(ch.State["who_"+tag])
+		}
+		if lead != "" {
+			// the leading request's own effects are not the request's
+			for k, v := range ch.State {
+				if strings.Contains(k, w.Issuer.AddrString()) || k == "who_"+lead {
+					before[k] = string(v)
+				}
+			}
 		}
 	case 2:
 		res := w.Submit(chName, fn, ac.Args)
